@@ -215,7 +215,7 @@ pub fn run(ctx: &Ctx) -> usize {
 	if !ctx.quick() && violations == 0 {
 		ctx.put("slp_writer_reject_space_exhaustive", json!(n == 16_777_216 - (3 * 65536 + 16 * 256 + 1)));
 	}
-	if run_dna(ctx, "newer_file", ctx.n(2000, 50_000), 1024, |dna, counting| newer_file_case(ctx, dna, counting)).is_some() {
+	if run_dna(ctx, "newer_file", ctx.n(10_000, 500_000), 1024, |dna, counting| newer_file_case(ctx, dna, counting)).is_some() {
 		violations += 1;
 	}
 	violations
